@@ -1113,8 +1113,15 @@ def k26_size_without_position(spec, v) -> bool:
     return v.get("monitor") == "violated_size" and (v.get("object"), v.get("axis")) in set(pattern_axes(spec))
 
 
+def _blames_extension(spec, v) -> bool:
+    """Disambiguation between the known patterns only: the failing order names a SizeExtensionConstraint on an object that also
+    carries a late extension, so the extension pattern (not a size pattern on the same object) is the one at work."""
+    late = {o for o, _ in _late_extension_axes(spec)}
+    return any(o in late and "SizeExtensionConstraint" in str(msg) for o, msg in (v.get("errors") or {}).items())
+
+
 def k27_size_without_position(spec, v) -> bool:
-    return _match_c27(v, set(pattern_axes(spec)))
+    return _match_c27(v, set(pattern_axes(spec))) and not _blames_extension(spec, v)
 
 
 def k26_size_reference_late(spec, v) -> bool:
@@ -1132,7 +1139,7 @@ def k26_size_reference_late(spec, v) -> bool:
 
 
 def k27_size_reference_late(spec, v) -> bool:
-    return _match_c27(v, _late_size_axes(spec, True))
+    return _match_c27(v, _late_size_axes(spec, True)) and not _blames_extension(spec, v)
 
 
 def k26_extension_target_late(spec, v) -> bool:
